@@ -184,6 +184,27 @@ def judge(case, m):
     bad["succ_frac"] = bad["succ"] + 0.5
     bad["succ_big"] = bad["tr"] + 1
     bad["tr_frac"] = bad["tr"] + 0.5
+    # unsigned dtypes: successes above trials must be refused there too (no wrap-around)
+    for dt in ("uint8", "uint32", "uint64"):
+        ub = df.copy()
+        ub["tr"] = ub["tr"].astype(dt)
+        ub["succ"] = (ub["tr"] + 2).astype(dt)
+        m.ev("proportion-validated")
+        try:
+            formulae.design_matrices("prop(succ, tr) ~ x", ub)
+            m.violation("proportion-validated", f"successes above trials accepted for {dt} columns", case={**case, "text": "prop(succ, tr) ~ x", "dtype": dt},
+                        key="prop:invalid-accepted")
+        except Exception:
+            pass
+        ok = df.copy()
+        ok["tr"], ok["succ"] = ok["tr"].astype(dt), ok["succ"].astype(dt)
+        m.ev("proportion-validated")
+        try:
+            R = np.asarray(formulae.design_matrices("prop(succ, tr) ~ x", ok).response.design_matrix, dtype=float)
+            if not np.array_equal(R[:, 0], df["succ"].to_numpy(dtype=float)) or not np.array_equal(R[:, 1], df["tr"].to_numpy(dtype=float)):
+                m.violation("proportion-validated", f"{dt} columns: response is not (successes, trials)", case=case, key="prop:training")
+        except Exception as e:
+            m.violation("proportion-validated", f"valid {dt} columns refused: {type(e).__name__}: {e}", case=case, key="prop:raises")
     for text in ("prop(succ_frac, tr) ~ x", "prop(succ_big, tr) ~ x", "prop(succ, tr_frac) ~ x", "prop(succ, 0) ~ x" if df["succ"].max() > 0 else "prop(succ_big, 1) ~ x",
                  "y ~ prop(succ, tr)"):
         m.ev("proportion-validated")
@@ -209,7 +230,11 @@ def judge(case, m):
     q = lambda v: "'" + v + "'"  # noqa: E731
     pairs = [(f"B(s, {q(r)})", f"binary(s, {q(r)})"), ("B(k)", "binary(k)"), ("standardize(x)", "scale(x)"),
              (f"T(s, {q(r)})", f"C(s, Treatment({q(r)}))"), (f"S(s, {q(o)})", f"C(s, Sum({q(o)}))"), ("T(s)", "C(s, Treatment)"),
-             ("S(s)", "C(s, Sum)"), ("standardize(x):s", "scale(x):s"), (f"T(k, 2)", "C(k, Treatment(2))")]
+             ("S(s)", "C(s, Sum)"), ("standardize(x):s", "scale(x):s"), (f"T(k, 2)", "C(k, Treatment(2))"),
+             # full-rank positions (no intercept) and interactions
+             (f"0 + T(s, {q(r)})", f"0 + C(s, Treatment({q(r)}))"), (f"0 + T(s, {q(o)})", f"0 + C(s, Treatment({q(o)}))"),
+             (f"0 + S(s, {q(r)})", f"0 + C(s, Sum({q(r)}))"), (f"0 + x + T(s, {q(o)}):x", f"0 + x + C(s, Treatment({q(o)})):x"),
+             (f"0 + T(k, 2)", "0 + C(k, Treatment(2))"), (f"0 + B(s, {q(r)}) + S(s)", f"0 + binary(s, {q(r)}) + C(s, Sum)")]
     new_ok = new.copy()
     for a, b in pairs:
         m.ev("aliases-synonymous")
